@@ -128,6 +128,7 @@ struct World {
 }
 
 fn run_map(input: &Value) -> Case {
+    let literal = input["kind"] == "map_literal";
     let ops = input["ops"].as_array().cloned().unwrap_or_default();
     let ops2 = ops.clone();
     // every operation of the history runs under one catch: a panic anywhere ends the observation list with BPanic
@@ -256,15 +257,23 @@ fn run_map(input: &Value) -> Case {
     match result {
         Some((coq_ops, coq_obs, jobs, mut tags, known_class)) => {
             j["impl"] = Value::Array(jobs);
-            if known_class {
+            let _ = known_class;
+            if literal {
+                // judged by the literal wording of clause B: every such case may fall in the class of the known
+                // finding; whether it does is decided in Coq on the dictionary side (first component of the check)
                 j["known_class"] = json!(["unbound-key-continues-pending-chord"]);
             }
             let nontrivial = tags.iter().filter(|t| t.starts_with("reg.")).count() >= 2
                 && tags.iter().any(|t| t.starts_with("lookup") || t.starts_with("handle") || t == "each");
             tags.sort();
             tags.dedup();
-            tags.push("kind=map".to_string());
-            Case { coq: format!("CMap {} {}", clist(coq_ops), clist(coq_obs)), json: j, tags, nontrivial }
+            tags.push(if literal { "kind=map_literal".to_string() } else { "kind=map".to_string() });
+            Case {
+                coq: format!("{} {} {}", if literal { "CMapLiteral" } else { "CMap" }, clist(coq_ops), clist(coq_obs)),
+                json: j,
+                tags,
+                nontrivial: nontrivial && !literal,
+            }
         }
         None => {
             j["impl"] = json!("panic");
@@ -447,7 +456,7 @@ fn run_print(input: &Value) -> Case {
 
 pub fn run(input: &Value) -> Case {
     match input["kind"].as_str().unwrap_or("") {
-        "map" => run_map(input),
+        "map" | "map_literal" => run_map(input),
         "parse" => run_parse(input),
         _ => run_print(input),
     }
@@ -861,7 +870,17 @@ pub fn generate(rng: &mut Rng, n: usize, tier: &str) -> Vec<Value> {
     let fixed = v.len();
     while v.len() < fixed + n {
         match rng.below(20) {
-            0..=11 => v.push(gen_map(rng)),
+            0..=11 => {
+                let m = gen_map(rng);
+                if rng.chance(1, 6) {
+                    let mut twin = m.clone();
+                    twin["kind"] = json!("map_literal");
+                    v.push(m);
+                    v.push(twin);
+                } else {
+                    v.push(m);
+                }
+            }
             12..=13 => v.push(json!({"kind": "parse", "what": "name", "s": gen_name_str(rng)})),
             14..=15 => v.push(json!({"kind": "parse", "what": "key", "s": gen_key_str(rng)})),
             16 => v.push(json!({"kind": "parse", "what": "chord", "s": gen_chord_str(rng)})),
